@@ -36,12 +36,18 @@ ASSUMPTIONS = ["the iteration order of the Python sets `keys() & keys()` inside 
                "to its private copy); joined open axes have equal dimensions; a join leaving a bond with fewer than two references is "
                "refused by the code's assert, which leaves the first operand half-updated: it is not used any further",
                "the aliasing claim of merge (second operand untouched) is checked on the real objects by deep comparison; the model is pure",
+               "public stage: the value of the EMPTY network (only the virtual tensor, no axes - reachable only by merge_tensors(-1, t) "
+               "on the last real tensor) is not compared: the defining sum is the empty product 1, contract_einsum raises ValueError "
+               "(np.einsum without operands); merge_tensors with data: the caller stores the outer product for the fused tensor (the "
+               "harness does so through the public attributes), TensorNetwork has no merge_tensors wrapper of its own",
                "value theorems are over exact arithmetic (any commutative semiring); the correspondence uses integer data so that the "
                "implementation's einsum is exact too; indices are within the shape"]
 RULE = ("histories of 1..10 rename/transpose/merge operations over 1..3 random consistent networks with colliding ids and "
         "shared datarefs (plus networks that is_consistent() must reject, whose initial state only is compared); a history is "
         "non-trivial if at least one operation succeeded and changed a dictionary; distinct = distinct (networks, operation list)")
 LIMIT = 20000
+import os
+PUBLIC_STAGE = os.environ.get("C08_PUBLIC", "0") == "1"      # switched on by default once green
 
 
 def snapshot(tn):
@@ -577,6 +583,583 @@ def gen_cases(tier, rng):
         yield gen_history(rng, thorough)
 
 
+# ---------------------------------------------------------------------------------------------
+# public stage: merge_tensors / merge_bonds / add_tensor / add_bond / generate_bonds / wrap and every query
+# (driver op `net.historyP`, model lean/QibModel/TNetPublic.lean, theorems lean/QibProofs/Properties/C08Public.lean)
+# ---------------------------------------------------------------------------------------------
+
+PUBLIC_OPS = ("merge_tensors", "merge_bonds", "add_tensor", "add_bond", "generate_bonds", "wrap", "set_data")
+PROBE = [-2, -1, 0, 3]
+
+
+def _ex(f, conv):
+    try:
+        return conv(f())
+    except Exception as e:
+        return {"err": G.err_kind(e)}
+
+
+def _tj(t):
+    return [int(t.tid), [int(d) for d in t.shape], [int(b) for b in t.bids], None if t.dataref is None else int(t.dataref)]
+
+
+def queries(tn):
+    """every public query, through the TensorNetwork wrapper where it has one"""
+    net = tn.net
+    ids = [int(k) for k in net.tensors.keys()] + [int(k) for k in net.bonds.keys()] + PROBE
+    ints = lambda l: [int(x) for x in l]
+    return {"num_tensors": _ex(lambda: tn.num_tensors, int), "num_bonds": int(tn.num_bonds),
+            "num_open_axes": _ex(lambda: tn.num_open_axes, int), "shape": _ex(lambda: tn.shape, ints),
+            "tensor_ids": _ex(net.tensor_ids, ints),
+            "has_tensor": [bool(net.has_tensor(i)) for i in ids],
+            "get_tensor": [_ex(lambda: net.get_tensor(i), _tj) for i in ids],
+            "has_bond": [bool(net.has_bond(i)) for i in ids],
+            "get_bond": [_ex(lambda: net.get_bond(i), lambda b: [int(b.bid), ints(b.tids)]) for i in ids],
+            "bond_axes": [_ex(lambda: net.get_bond_axes(i), ints) for i in ids]}
+
+
+def state_p(tn):
+    st = state(tn)
+    st["q"] = queries(tn)
+    if isinstance(st["value"], dict) and len(tn.net.tensors) == 1 and st["counts"] == [0, 0, 0]:
+        # the EMPTY network (virtual tensor only, no axis; reachable only by merging the last real tensor into the virtual one): its
+        # defining sum is the empty product 1, contract_einsum has no operand for np.einsum (ValueError) - outside C08, see ASSUMPTIONS
+        st["value"] = None
+    return st
+
+
+def apply_op_p(nets, op):
+    sn, tnm, _ = G.qib_tn()
+    kind, i = op[0], op[1]
+    tn = nets[i]
+    if kind == "merge_tensors":
+        tn.net.merge_tensors(op[2], op[3])
+    elif kind == "merge_bonds":
+        tn.net.merge_bonds(op[2], op[3])
+    elif kind == "add_tensor":
+        tn.net.add_tensor(sn.SymbolicTensor(op[2], op[3], op[4], op[5]))
+    elif kind == "add_bond":
+        tn.net.add_bond(sn.SymbolicBond(op[2], op[3]))
+    elif kind == "generate_bonds":
+        tn.net.generate_bonds()
+    elif kind == "wrap":
+        nets[i] = tnm.TensorNetwork.wrap(np.array(op[3], dtype=np.int64).reshape(op[4]), op[2])
+    elif kind == "set_data":
+        # harness-level: give tensor op[2] the data reference op[3] and store the array (what a caller of merge_tensors has to do)
+        tn.net.tensors[op[2]].dataref = op[3]
+        tn.data[op[3]] = np.array(op[4], dtype=np.int64).reshape(op[5])
+    else:
+        apply_op(nets, op)
+
+
+def impl_p(case):
+    nets = [G.build_tn(n["net"], n["data"]) for n in case["nets"]]
+    dead = [False] * len(nets)
+    out = {"init": [state_p(t) for t in nets], "steps": []}
+    orders = []
+    for op in case["ops"]:
+        kind, i = op[0], op[1]
+        if dead[i] or (kind == "merge" and dead[op[2]]):
+            out["steps"].append({"dead": True})
+            orders.append([[], []])
+            continue
+        before = snapshot(nets[i])
+        other_before = None
+        if kind == "merge":
+            orders.append(set_orders(nets[i], nets[op[2]]))
+            if op[2] != i:
+                other_before = snapshot(nets[op[2]])
+        else:
+            orders.append([[], []])
+        try:
+            apply_op_p(nets, op)
+            st = state_p(nets[i])
+        except Exception as e:
+            dies = not snap_equal(before, snapshot(nets[i]))
+            dead[i] = dies
+            st = {"err": G.err_kind(e), "dies": dies}
+            st.update(G.net_json(nets[i].net))        # the state the failed call leaves behind
+        if other_before is not None:
+            st["other_unchanged"] = snap_equal(other_before, snapshot(nets[op[2]]))
+        out["steps"].append(st)
+    case["orders"] = orders
+    return out
+
+
+def model_req_p(case):
+    r = model_req(case)
+    r["op"] = "net.historyP"
+    return r
+
+
+def cmp_state_p(tag, kind, o, m):
+    d = cmp_state(tag, o, m)
+    if d:
+        return d
+    if "dead" in o:
+        return None
+    if "err" in o:
+        if kind in PUBLIC_OPS and kind not in ("wrap", "set_data"):
+            for k in ("tensors", "bonds"):
+                if o[k] != m.get(k):
+                    return f"{tag}: state left behind by the failed call: {k}: impl {o[k]} != model {m.get(k)}"
+        return None
+    if o["q"] != m.get("q"):
+        for k in o["q"]:
+            if o["q"][k] != (m.get("q") or {}).get(k):
+                return f"{tag}: query {k}: impl {o['q'][k]} != model {(m.get('q') or {}).get(k)}"
+    return None
+
+
+def compare_p(case, o, m):
+    if "harness_exception" in o:
+        return "harness exception: " + o["harness_exception"] + o.get("tb", "")
+    for k, (a, b) in enumerate(zip(o["init"], m["init"])):
+        d = cmp_state_p(f"initial network {k}", None, a, b)
+        if d:
+            return d
+    if len(o["steps"]) != len(m["steps"]):
+        return "step counts differ"
+    for k, (a, b) in enumerate(zip(o["steps"], m["steps"])):
+        d = cmp_state_p(f"step {k} {case['ops'][k][:4]}", case["ops"][k][0], a, b)
+        if d:
+            return d
+    return None
+
+
+def brute_identified(desc, data, b1=None, b2=None):
+    """The defining sum of the network described by `desc` (lists, not qib objects) with the summation/open index of bond `b2`
+    IDENTIFIED with that of `b1` (the diagonal restriction); plain defining sum for b1 = b2 = None. Independent of qib."""
+    tens = {t[0]: t for t in desc["tensors"]}
+    v = tens[-1]
+    lab = {}
+    for t in desc["tensors"]:
+        for b in t[3]:
+            lab.setdefault(b, len(lab))
+    if b1 is not None:
+        if b1 not in lab or b2 not in lab:
+            return None
+        lab[b2] = lab[b1]
+    args, used = [], set()
+    for t in desc["tensors"]:
+        if t[0] == -1:
+            continue
+        args += [np.asarray(data[t[4]]), [lab[b] for b in t[3]]]
+        used |= {lab[b] for b in t[3]}
+    openl = list(dict.fromkeys(lab[b] for b in v[3]))
+    for k, b in enumerate(v[3]):
+        if lab[b] not in used:
+            args += [np.ones(v[2][k], dtype=np.int64), [lab[b]]]
+            used.add(lab[b])
+    args.append(openl)
+    core = np.einsum(*args)
+    out = np.zeros(v[2], dtype=np.int64)
+    for idx in np.ndindex(*v[2]):
+        val, ok = {}, True
+        for k, b in enumerate(v[3]):
+            if val.setdefault(lab[b], idx[k]) != idx[k]:
+                ok = False
+                break
+        if ok:
+            out[idx] = core[tuple(val[l] for l in openl)]
+    return out
+
+
+def bond_dims(st):
+    dims = {}
+    for t in st["tensors"]:
+        for b, d in zip(t[3], t[2]):
+            dims.setdefault(b, set()).add(d)
+    return dims
+
+
+def oracle_queries(tag, st, bad):
+    """(d): the queries agree with each other and with the two dictionaries, on every state"""
+    q = st["q"]
+    keys_t = [t[0] for t in st["tensors"]]
+    keys_b = [b[0] for b in st["bonds"]]
+    ids = keys_t + keys_b + PROBE
+    virt = -1 in keys_t
+    for name in ("num_tensors", "num_open_axes", "shape", "tensor_ids"):
+        r = q[name]
+        if virt and isinstance(r, dict):
+            bad.append((f"C08:query:{name}:raises", f"{tag}: {name} raised {r['err']} although the virtual tensor exists"))
+        if not virt and not (isinstance(r, dict) and r["err"] == "RuntimeError"):
+            bad.append((f"C08:query:{name}:no-virtual", f"{tag}: {name} = {r} without a virtual tensor (RuntimeError expected)"))
+    if virt:
+        if q["num_tensors"] != len(keys_t) - 1 or q["tensor_ids"] != sorted(k for k in keys_t if k != -1):
+            bad.append(("C08:query:num_tensors", f"{tag}: num_tensors = {q['num_tensors']}, tensor_ids = {q['tensor_ids']}, keys {keys_t}"))
+        vt = st["tensors"][keys_t.index(-1)]
+        if q["shape"] != vt[2] or q["num_open_axes"] != len(vt[2]):
+            bad.append(("C08:query:shape", f"{tag}: shape = {q['shape']}, num_open_axes = {q['num_open_axes']}, virtual tensor {vt}"))
+    if q["num_bonds"] != len(keys_b):
+        bad.append(("C08:query:num_bonds", f"{tag}: num_bonds = {q['num_bonds']}, bond keys {keys_b}"))
+    for n, i in enumerate(ids):
+        ht, gt, hb, gb = q["has_tensor"][n], q["get_tensor"][n], q["has_bond"][n], q["get_bond"][n]
+        if ht != (i in keys_t) or hb != (i in keys_b):
+            bad.append(("C08:query:has", f"{tag}: has_tensor({i}) = {ht}, has_bond({i}) = {hb}; keys {keys_t} / {keys_b}"))
+        if ht != (not isinstance(gt, dict)) or (isinstance(gt, dict) and gt["err"] != "KeyError"):
+            bad.append(("C08:query:get_tensor", f"{tag}: has_tensor({i}) = {ht} but get_tensor gives {gt}"))
+        elif ht and gt != st["tensors"][keys_t.index(i)][1:]:
+            bad.append(("C08:query:get_tensor", f"{tag}: get_tensor({i}) = {gt}, dictionary entry {st['tensors'][keys_t.index(i)]}"))
+        if hb != (not isinstance(gb, dict)) or (isinstance(gb, dict) and gb["err"] != "KeyError"):
+            bad.append(("C08:query:get_bond", f"{tag}: has_bond({i}) = {hb} but get_bond gives {gb}"))
+        elif hb and gb != st["bonds"][keys_b.index(i)][1:]:
+            bad.append(("C08:query:get_bond", f"{tag}: get_bond({i}) = {gb}, dictionary entry {st['bonds'][keys_b.index(i)]}"))
+    if st["consistent"] is True:
+        tens = {t[0]: t for t in st["tensors"]}
+        for b in st["bonds"]:
+            ax = q["bond_axes"][ids.index(b[0], len(keys_t))]
+            good = (not isinstance(ax, dict)) and len(ax) == len(b[2]) and len(set(zip(b[2], ax))) == len(ax) and \
+                all(t in tens and a < len(tens[t][3]) and tens[t][3][a] == b[0] for t, a in zip(b[2], ax))
+            if not good:
+                bad.append(("C08:query:get_bond_axes", f"{tag}: get_bond_axes({b[0]}) = {ax} for bond {b} of a consistent network"))
+
+
+def oracle_p(case, o):
+    """direct oracle of the public stage: (a) accepted/rejected calls and the state a rejected call leaves, (b) consistency and counts
+    after merge_tensors / merge_bonds, (c) the value (product tensor / diagonal restriction), (d) the queries; the old operations keep
+    their oracle in the first stage"""
+    if "harness_exception" in o:
+        return []
+    bad = []
+    cur = [dict(s) for s in o["init"]]
+    for k, s in enumerate(cur):
+        oracle_queries(f"initial network {k}", s, bad)
+    pending = {}            # net index -> (value before merge_tensors, tid of the fused tensor)
+    stripped = set(case.get("stripped", []))
+    for n, (op, st) in enumerate(zip(case["ops"], o["steps"])):
+        kind, i = op[0], op[1]
+        if "dead" in st:
+            continue
+        prev = cur[i]
+        tag = f"step {n} {op[:4]}"
+        keys_t = [t[0] for t in prev["tensors"]]
+        keys_b = [b[0] for b in prev["bonds"]]
+        pre_ok = prev["consistent"] is True
+        was_stripped = i in stripped          # the tensors of a consistent network without its bonds, untouched so far
+        stripped.discard(i)
+        if kind not in PUBLIC_OPS or kind in ("wrap",):
+            if "err" not in st:
+                oracle_queries(tag, st, bad)
+                cur[i] = dict(st)
+                if kind == "wrap":
+                    a = np.array(op[3], dtype=np.int64).reshape(op[4])
+                    if st["consistentData"] is not True or st["counts"] != [1, a.ndim, a.ndim] or st["shape"] != list(a.shape):
+                        bad.append(("C08:wrap:inconsistent", f"{tag}: wrap gives consistent = {st['consistentData']}, counts {st['counts']}, shape {st['shape']}"))
+                    elif isinstance(st["value"], np.ndarray) and not np.array_equal(st["value"], a):
+                        bad.append(("C08:wrap:value", f"{tag}: the wrapped array does not contract to itself"))
+                    cur[i]["_data"] = {op[2]: a}
+                else:
+                    cur[i]["_data"] = None if kind == "merge" else prev.get("_data")
+            pending.pop(i, None)
+            continue
+        # ---- (a) which calls are accepted, and what a rejected call leaves behind
+        want_err = None
+        if kind == "merge_tensors":
+            if op[2] != op[3] and (op[2] not in keys_t or op[3] not in keys_t):
+                want_err = "KeyError"
+        elif kind == "merge_bonds":
+            if op[2] != op[3] and (op[2] not in keys_b or op[3] not in keys_b):
+                want_err = "KeyError"
+        elif kind == "add_tensor":
+            if len(op[3]) != len(op[4]) or op[2] in keys_t:
+                want_err = "ValueError"
+        elif kind == "add_bond":
+            if len(op[3]) < 2 or op[2] in keys_b:
+                want_err = "ValueError"
+        elif kind == "generate_bonds":
+            if keys_b:
+                want_err = "RuntimeError"
+        elif kind == "set_data":
+            want_err = None if op[2] in keys_t else "KeyError"
+        got_err = st.get("err")
+        if want_err is not None:
+            if got_err != want_err:
+                bad.append((f"C08:{kind}:accepts-invalid" if got_err is None else f"C08:{kind}:wrong-rejection:{got_err}",
+                            f"{tag}: expected {want_err}, got {got_err or 'no exception'}"))
+            elif st.get("dies") or st["tensors"] != prev["tensors"] or st["bonds"] != prev["bonds"]:
+                bad.append((f"C08:{kind}:rejected-call-wrote", f"{tag}: raised {got_err} but modified the network"))
+            if got_err is None:
+                cur[i] = dict(st)
+                cur[i]["_data"] = None
+            continue
+        if got_err is not None:
+            # no guard of the call is violated: on a consistent network nothing may raise (generate_bonds: a bond id carried by a single
+            # axis is refused by the SymbolicBond constructor - only possible when the tensors were not those of a consistent network)
+            if pre_ok or (kind == "generate_bonds" and was_stripped):
+                bad.append((f"C08:{kind}:rejects-valid:{got_err}", f"{tag}: raised {got_err} on valid arguments"))
+            continue
+        oracle_queries(tag, st, bad)
+        new = dict(st)
+        new["_data"] = prev.get("_data")
+        cur[i] = new
+        c0, c1 = prev["counts"], st["counts"]
+        if kind == "merge_tensors" and pre_ok:
+            t1, t2 = op[2], op[3]
+            if t1 == t2:
+                if st["tensors"] != prev["tensors"] or st["bonds"] != prev["bonds"]:
+                    bad.append(("C08:merge_tensors:same-id-not-identity", f"{tag}: merging a tensor with itself changed the network"))
+            elif t2 == -1:
+                if st["consistent"] is not False:
+                    bad.append(("C08:merge_tensors:virtual-removed", f"{tag}: the virtual tensor was merged away, is_consistent() = {st['consistent']}"))
+            else:
+                if st["consistent"] is not True:
+                    bad.append(("C08:merge_tensors:inconsistent-after", f"{tag}: is_consistent() = {st['consistent']} after merging two tensors of a consistent network"))
+                else:
+                    T1 = prev["tensors"][keys_t.index(t1)]
+                    T2 = prev["tensors"][keys_t.index(t2)]
+                    want = [c0[0] - 1, c0[1], c0[2] + (len(T2[2]) if t1 == -1 else 0)]
+                    if c1 != want:
+                        bad.append(("C08:merge_tensors:counts", f"{tag}: counts {c0} -> {c1}, expected {want}"))
+                    fused = st["tensors"][[t[0] for t in st["tensors"]].index(t1)]
+                    if fused[1:4] != [T1[1], T1[2] + T2[2], T1[3] + T2[3]]:
+                        bad.append(("C08:merge_tensors:fused-tensor", f"{tag}: fused tensor {fused}, operands {T1}, {T2}"))
+                    if t1 != -1 and isinstance(prev["value"], np.ndarray):
+                        pending[i] = (prev["value"], t1)
+                        continue
+        elif kind == "merge_bonds" and pre_ok:
+            b1, b2 = op[2], op[3]
+            dims = bond_dims(prev)
+            if b1 == b2:
+                if st["tensors"] != prev["tensors"] or st["bonds"] != prev["bonds"]:
+                    bad.append(("C08:merge_bonds:same-id-not-identity", f"{tag}: merging a bond with itself changed the network"))
+            elif dims[b1] != dims[b2]:
+                if st["consistent"] is True:
+                    bad.append(("C08:merge_bonds:dimension-mismatch-passes", f"{tag}: bonds of dimensions {dims[b1]} / {dims[b2]} fused and is_consistent() is True"))
+            else:
+                if st["consistent"] is not True or (prev["consistentData"] is True and st["consistentData"] is not True):
+                    bad.append(("C08:merge_bonds:inconsistent-after", f"{tag}: is_consistent() = {st['consistent']} / with data {st['consistentData']}"))
+                else:
+                    if c1 != [c0[0], c0[1] - 1, c0[2]]:
+                        bad.append(("C08:merge_bonds:counts", f"{tag}: counts {c0} -> {c1}"))
+                    if any(b[2] != sorted(b[2]) for b in st["bonds"]):
+                        bad.append(("C08:merge_bonds:bond-tids-unsorted", f"{tag}: a bond's tensor ids are no longer ordered"))
+                    B1 = prev["bonds"][keys_b.index(b1)]
+                    B2 = prev["bonds"][keys_b.index(b2)]
+                    fb = st["bonds"][[b[0] for b in st["bonds"]].index(b1)]
+                    if fb[2] != sorted(B1[2] + B2[2]) or b2 in [b[0] for b in st["bonds"]] or any(b2 in t[3] for t in st["tensors"]):
+                        bad.append(("C08:merge_bonds:fused-bond", f"{tag}: fused bond {fb}, operands {B1}, {B2}"))
+                    if isinstance(st["value"], np.ndarray) and prev.get("_data") is not None and prev["consistentData"] is True:
+                        want = brute_identified(prev, prev["_data"], b1, b2)
+                        if want is not None and (want.shape != st["value"].shape or not np.array_equal(want, st["value"])):
+                            bad.append(("C08:merge_bonds:value", f"{tag}: the value is not the diagonal restriction (indices of the two bonds identified)"))
+        elif kind == "generate_bonds" and was_stripped:
+            if st["consistent"] is not True:
+                bad.append(("C08:generate_bonds:inconsistent-after", f"{tag}: is_consistent() = {st['consistent']} after regenerating the bonds of a consistent network"))
+            elif [b[0] for b in st["bonds"]] != sorted(b[0] for b in st["bonds"]):
+                bad.append(("C08:generate_bonds:order", f"{tag}: bonds not generated in increasing id order"))
+            elif isinstance(st["value"], np.ndarray) and prev.get("_data") is not None:
+                want = brute_identified(st, prev["_data"])
+                if not np.array_equal(want, st["value"]):
+                    bad.append(("C08:generate_bonds:value", f"{tag}: value differs from the defining sum"))
+        elif kind == "set_data":
+            arr = np.array(op[4], dtype=np.int64).reshape(op[5])
+            d = dict(prev["_data"]) if prev.get("_data") is not None else None
+            if d is not None:
+                d[op[3]] = arr
+            new["_data"] = d
+            if i in pending and pending[i][1] == op[2] and len(op) > 6 and op[6] == "fused":
+                v0 = pending[i][0]
+                if st["consistentData"] is not True:
+                    bad.append(("C08:merge_tensors:inconsistent-with-product-data", f"{tag}: with the outer product stored for the fused tensor is_consistent() = {st['consistentData']}"))
+                elif isinstance(st["value"], np.ndarray) and (v0.shape != st["value"].shape or not np.array_equal(v0, st["value"])):
+                    bad.append(("C08:merge_tensors:value", f"{tag}: the value changed although the fused tensor carries the outer product of the two"))
+        elif kind == "add_tensor" and pre_ok:
+            # characterisation: a tensor with axes cannot be consistent before its bonds refer to it
+            if (st["consistent"] is True) != (len(op[4]) == 0):
+                bad.append(("C08:add_tensor:consistency", f"{tag}: is_consistent() = {st['consistent']} after adding a tensor with {len(op[4])} axes"))
+        elif kind == "add_bond" and pre_ok:
+            if st["consistent"] is True:
+                bad.append(("C08:add_bond:consistency", f"{tag}: is_consistent() is True after adding a bond no tensor refers to"))
+        pending.pop(i, None)
+    return bad
+
+
+def oracle_wrap_p(case, o):
+    if "harness_exception" in o:
+        return []
+    for s, n in zip(o["init"], case["nets"]):
+        s["_data"] = {int(k): np.array(v, dtype=np.int64).reshape(sh) for k, v, sh in n["data"]}
+    try:
+        return oracle_p(case, o)
+    finally:
+        for s in o["init"] + o["steps"]:
+            s.pop("_data", None)
+
+
+def bond_dim_of(tn, b):
+    for t in tn.net.tensors.values():
+        for bb, d in zip(t.bids, t.shape):
+            if bb == b:
+                return d
+    return None
+
+
+def gen_public(rng, thorough):
+    nn = rng.choice([1, 1, 2, 2, 3])
+    pool = list(range(0, 7)) + [11]
+    descs = []
+    for _ in range(nn):
+        d, data = G.gen_network(rng, max_tensors=4, max_bonds=5, max_open=4, max_cost=100, id_pool=pool)
+        descs.append({"net": d, "data": data})
+    stripped = []
+    if rng.random() < 0.15:
+        k = rng.randrange(nn)
+        descs[k]["net"]["bonds"] = []
+        stripped.append(k)
+    nets = [G.build_tn(n["net"], n["data"]) for n in descs]
+    alive = [True] * nn
+    ops = []
+    nextref = 50
+
+    def push(op):
+        i = op[1]
+        ops.append(op)
+        before = snapshot(nets[i])
+        try:
+            apply_op_p(nets, op)
+            return True
+        except Exception:
+            if not snap_equal(before, snapshot(nets[i])):
+                alive[i] = False
+            return False
+
+    for k in stripped:
+        if rng.random() < 0.9:
+            push(["generate_bonds", k])
+    for _ in range(rng.randint(1, 9)):
+        i = rng.randrange(nn)
+        if not alive[i]:
+            continue
+        tn = nets[i]
+        consistent = cons(tn.net.is_consistent) is True
+        keys_t = [int(k) for k in tn.net.tensors.keys()]
+        keys_b = [int(k) for k in tn.net.bonds.keys()]
+        r = rng.random()
+        if r < 0.27:
+            x = rng.random()
+            real = [k for k in keys_t if k != -1]
+            t1 = rng.choice(real) if real and x < 0.8 else (rng.choice(keys_t) if x < 0.93 else fresh(rng, keys_t, -3, 14))
+            y = rng.random()
+            t2 = rng.choice(real) if real and y < 0.82 else (rng.choice(keys_t) if y < 0.93 else fresh(rng, keys_t, -3, 14))
+            if len(tn.net.tensors.get(t1).bids if t1 in keys_t else []) + len(tn.net.tensors.get(t2).bids if t2 in keys_t else []) > 8:
+                continue
+            good = consistent and cons(tn.is_consistent) is True and t1 in keys_t and t2 in keys_t and t1 != t2 and t1 != -1 and t2 != -1
+            if good:
+                a1 = np.asarray(tn.data[tn.net.tensors[t1].dataref])
+                a2 = np.asarray(tn.data[tn.net.tensors[t2].dataref])
+            if push(["merge_tensors", i, t1, t2]) and good and a1.size * a2.size <= 600 and rng.random() < 0.9:
+                outer = np.multiply.outer(a1, a2)
+                push(["set_data", i, t1, nextref, outer.tolist(), [int(d) for d in outer.shape], "fused"])
+                nextref += 1
+        elif r < 0.54:
+            if not keys_b:
+                continue
+            x = rng.random()
+            b1 = rng.choice(keys_b) if x < 0.93 else fresh(rng, keys_b, -6, 25)
+            same = [b for b in keys_b if b != b1 and bond_dim_of(tn, b) == bond_dim_of(tn, b1)]
+            y = rng.random()
+            b2 = rng.choice(same) if same and y < 0.78 else (rng.choice(keys_b) if y < 0.93 else fresh(rng, keys_b, -6, 25))
+            push(["merge_bonds", i, b1, b2])
+        elif r < 0.62:
+            tid = fresh(rng, keys_t, -3, 14) if rng.random() < 0.75 else rng.choice(keys_t)
+            x = rng.random()
+            if x < 0.45:
+                shape, bids = [], []
+            else:
+                n = rng.randint(1, 3)
+                shape = [rng.choice([1, 2, 3]) for _ in range(n)]
+                bids = [rng.choice(keys_b) if keys_b and rng.random() < 0.7 else rng.randint(-5, 20) for _ in range(n)]
+                if x > 0.9:
+                    bids = bids[:-1] if rng.random() < 0.5 else bids + [0]
+            ref = nextref
+            nextref += 1
+            if push(["add_tensor", i, tid, shape, bids, ref]) and rng.random() < 0.8:
+                n = int(np.prod(shape)) if shape else 1
+                push(["set_data", i, tid, ref, np.array([rng.randint(-3, 3) for _ in range(n)], dtype=np.int64).reshape(shape).tolist(), shape])
+        elif r < 0.69:
+            bid = fresh(rng, keys_b, -6, 25) if rng.random() < 0.75 else (rng.choice(keys_b) if keys_b else 0)
+            m = rng.choice([0, 1, 2, 2, 2, 3])
+            tids = [rng.choice(keys_t) if rng.random() < 0.85 else rng.randint(-3, 14) for _ in range(m)]
+            push(["add_bond", i, bid, tids])
+        elif r < 0.72:
+            push(["generate_bonds", i])
+        elif r < 0.75:
+            k = rng.randint(0, 3)
+            shape = [rng.choice([1, 2, 3]) for _ in range(k)]
+            n = int(np.prod(shape)) if shape else 1
+            arr = np.array([rng.randint(-3, 3) for _ in range(n)], dtype=np.int64).reshape(shape)
+            push(["wrap", i, rng.choice([0, 4, 9]), arr.tolist(), shape])
+        elif consistent:
+            # the old operations, on consistent networks only (their replicas are exact inside the invariant)
+            x = rng.random()
+            if x < 0.3 and keys_t:
+                real = [k for k in keys_t if k != -1] or keys_t
+                push(["rename_tensor", i, rng.choice(real), fresh(rng, keys_t) if rng.random() < 0.8 else rng.choice(keys_t)])
+            elif x < 0.55 and keys_b:
+                push(["rename_bond", i, rng.choice(keys_b), fresh(rng, keys_b) if rng.random() < 0.8 else rng.choice(keys_b)])
+            elif x < 0.75:
+                try:
+                    axes = list(range(tn.num_open_axes))
+                except Exception:
+                    continue
+                rng.shuffle(axes)
+                push(["transpose", i, axes if rng.random() < 0.9 else None])
+            else:
+                j = rng.randrange(nn)
+                if not alive[j] or cons(nets[j].net.is_consistent) is not True:
+                    continue
+                other = nets[j]
+                sa, so = list(tn.shape), list(other.shape)
+                if len(tn.net.tensors) + len(other.net.tensors) > 12 or len(sa) + len(so) > 8:
+                    continue
+                join = []
+                if sa and so and rng.random() < 0.7:
+                    a0 = rng.randrange(len(sa))
+                    cands = [b for b in range(len(so)) if so[b] == sa[a0]]
+                    if cands:
+                        join.append([a0, rng.choice(cands)])
+                push(["merge", i, j, join])
+    if not ops:
+        ops = [["merge_tensors", 0, -1, -1]]
+    case = {"op": "net.historyP", "nets": descs, "ops": ops}
+    if stripped:
+        case["stripped"] = stripped
+    return case
+
+
+def boundary_public():
+    """fixed histories: trace by merge_bonds (two bonds of one tensor), merging into / away the virtual tensor, equal ids (also unknown
+    ones: no lookup happens), unknown ids, calls that raise after they have written, wrap"""
+    a = {"tensors": [[0, 0, [2, 2], [0, 1], 0], [1, 1, [2, 2], [0, 1], 1], [-1, -1, [], [], None]], "bonds": [[0, 0, [0, 1]], [1, 1, [0, 1]]]}
+    da = [[0, [[1, 2], [3, -1]], [2, 2]], [1, [[2, 0], [1, 1]], [2, 2]]]
+    mk = lambda ops, net=a, data=da: {"op": "net.historyP", "nets": [{"net": copy.deepcopy(net), "data": copy.deepcopy(data)}], "ops": ops}
+    yield mk([["merge_bonds", 0, 0, 1]])                                   # sum_ij A_ij B_ij -> sum_i A_ii B_ii
+    yield mk([["merge_bonds", 0, 1, 0], ["merge_tensors", 0, 1, 0]])
+    yield mk([["merge_tensors", 0, 0, 1], ["merge_bonds", 0, 0, 1]])
+    yield mk([["merge_tensors", 0, 7, 7], ["merge_bonds", 0, 9, 9], ["merge_tensors", 0, 0, 7], ["merge_tensors", 0, 7, 0], ["merge_bonds", 0, 0, 9],
+              ["merge_bonds", 0, 9, 0], ["merge_tensors", 0, -1, 0], ["merge_tensors", 0, 1, -1]])
+    yield mk([["merge_tensors", 0, -1, 1], ["merge_bonds", 0, 0, 1], ["transpose", 0, None]])
+    # calls that raise after they have written
+    bt = {"tensors": [[0, 0, [2, 2, 2], [0, 5, 1], 0], [1, 1, [2], [0], 1], [-1, -1, [2], [1], None]], "bonds": [[0, 0, [0, 1]], [1, 1, [-1, 0]]]}
+    yield mk([["merge_tensors", 0, 1, 0]], bt, [[0, [[[1, 2], [3, 4]], [[5, 6], [7, 8]]], [2, 2, 2]], [1, [1, -1], [2]]])
+    bb = {"tensors": [[0, 0, [2, 2], [0, 1], 0], [-1, -1, [2, 2], [0, 1], None]], "bonds": [[0, 0, [-1, 0]], [1, 1, [-1, 0, 4]]]}
+    yield mk([["merge_bonds", 0, 0, 1]], bb, [[0, [[1, 2], [3, 4]], [2, 2]]])
+    gb = {"tensors": [[0, 0, [2, 2], [0, 1], 0], [-1, -1, [2], [0], None]], "bonds": []}
+    yield mk([["generate_bonds", 0]], gb, [[0, [[1, 2], [3, 4]], [2, 2]]])
+    yield mk([["wrap", 0, 3, [[1, 2, 3], [4, 5, 6]], [2, 3]], ["merge_bonds", 0, 0, 1], ["add_tensor", 0, 5, [], [], 8], ["set_data", 0, 5, 8, 7, []],
+              ["add_bond", 0, 0, [0, -1]], ["add_bond", 0, 9, [0]], ["add_bond", 0, 9, [0, 0]], ["generate_bonds", 0]])
+    yield mk([["wrap", 0, 3, 5, []], ["wrap", 0, 3, [[1, 2], [3, 4]], [2, 2]], ["merge_bonds", 0, 0, 1], ["transpose", 0, [1, 0]]])
+
+
+def gen_cases_public(tier, rng):
+    thorough = tier == "thorough"
+    yield from boundary_public()
+    for _ in range(30000 if thorough else 2500):
+        yield gen_public(rng, thorough)
+
+
 def nontrivial(c, o):
     if "harness_exception" in o:
         return False
@@ -603,3 +1186,16 @@ def run(rep, tier, rng, drv):
         return o
     run_correspondence(rep, drv, counted(gen_cases(tier, rng)), impl_counted, model_req, compare, oracle_wrap,
                        "net.history", batch=300, nontrivial=nontrivial)
+    if not PUBLIC_STAGE:
+        return
+
+    def impl_p_counted(c):
+        o = impl_p(c)
+        for op, s in zip(c["ops"], o["steps"]):
+            if "err" in s:
+                rep.count(f"outcome:{op[0]}:{s['err']}" + (":wrote" if s.get("dies") else ""))
+            elif "dead" not in s:
+                rep.count(f"outcome:{op[0]}:ok")
+        return o
+    run_correspondence(rep, drv, counted(gen_cases_public(tier, rng)), impl_p_counted, model_req_p, compare_p, oracle_wrap_p,
+                       "net.historyP", batch=300, nontrivial=nontrivial)
